@@ -7,6 +7,7 @@
 import RapidModel.Generated.Consts
 import RapidProofs.Shrink
 import RapidModel.Persist
+import RapidProofs.TranslatedPersistEq
 
 namespace Rapid.C17
 
@@ -55,5 +56,19 @@ example : loadBytes [] = .error .noData := by rfl
 /-! ### facts re-read from /repo's source on every run -/
 
 theorem version_source : Rapid.Generated.c_rapidVersion = rapidVersion := by decide
+
+/-! ### persist.go, translated from /repo on every run -/
+
+/-- **the source's `loadFailFile` reports an error exactly when the model's `loadBytes` does** — the files `unusable_files_ignored`
+    is about are the files the source refuses: no data, a malformed header, a seed or any word that is not a 64-bit number (the
+    error of every word counts, not only of the last one) -/
+theorem source_loadFailFile_error (bs : Bytes) (fuel : Nat) (hl : (scanLines bs).length < 2 ^ 61) (hf : (scanLines bs).length + 1 < fuel)
+    (hlines : ∀ l ∈ scanLines bs, (trimSpace l).length < 2 ^ 61) :
+    ∃ v sd buf err, Rapid.Translated.loadFailFile_bytes (scanLines bs) fuel = .ok (v, sd, buf, err) ∧
+      (err = true ↔ ∃ e, loadBytes bs = .error e) := by
+  refine ⟨_, _, _, _, tr_loadFailFile bs fuel hl hf hlines, ?_⟩
+  cases h : loadBytes bs with
+  | error e => simp [loadT]
+  | ok r => obtain ⟨v, sd, b⟩ := r; simp [loadT]
 
 end Rapid.C17
